@@ -299,10 +299,69 @@ Lemma tile_accepted_C12 E O outV t mn mx : tile_accepted E O outV t mn mx ->
   mn = wid_min g (tile_lo E O t) /\ mx = wid_max g (tile_hi E O t) /\
   mn <= cov_min g (tile_lo E O t) /\ cov_max g (tile_hi E O t) <= mx /\ mn <= mx /\
   ((tv t <= E \/ outV <= zorigin) -> mn = cov_min g (tile_lo E O t) /\ mx = cov_max g (tile_hi E O t)) /\
-  - 2 ^ outV <= mn /\ mx < 2 ^ outV.
+  - 2 ^ outV <= mn /\ mx < 2 ^ outV /\ 0 <= tv t <= 35.
 Proof.
   intros [Hz Hk] s g. apply ext_check_zoom_spec in Hz. apply key2z_ok in Hk. cbv zeta in Hk.
   unfold tile_lo, tile_hi, tile_scale, s, g. tauto.
+Qed.
+
+(* ---- the same in words that do not mention the conversion function: WHEN a tile is accepted and WHICH range it gets ---- *)
+(* the tile fits: zooms in 0..35, z an index of its vertical zoom, and the metre-widened cover of its altitude interval on the
+   spatial-ID axis at the requested zoom lies inside that zoom's index range [-2^outV, 2^outV) *)
+Definition tile_fits (E O outV : Z) (t : tile) : Prop :=
+  0 <= th t <= 35 /\ 0 <= outV <= 35 /\ 0 <= tv t <= 35 /\ 0 <= tz t < 2 ^ tv t /\
+  - 2 ^ outV <= wid_min (sid_scale outV) (tile_lo E O t) /\ wid_max (sid_scale outV) (tile_hi E O t) < 2 ^ outV.
+Definition stems_from (E O outV : Z) (t : tile) (j : eid) : Prop :=
+  tile_fits E O outV t /\ eh j = th t /\ ex j = tx t /\ ey j = ty t /\ ev j = outV /\
+  wid_min (sid_scale outV) (tile_lo E O t) <= ef j <= wid_max (sid_scale outV) (tile_hi E O t).
+
+Theorem tile_rejected_iff E O outV t : tile_rejected E O outV t <-> ~ tile_fits E O outV t.
+Proof.
+  unfold tile_rejected, tile_fits, tile_lo, tile_hi, tile_scale.
+  pose proof (key2z_err_iff (tz t) (tv t) outV E O) as K. cbv zeta in K. rewrite K. clear K.
+  destruct (ext_check_zoom (th t) outV) eqn:Z.
+  - apply ext_check_zoom_spec in Z. split; [intros [?|?]; [discriminate|lia]|]. intros N. right. lia.
+  - split; [|auto]. intros _ N. assert (X : ext_check_zoom (th t) outV = true) by (apply ext_check_zoom_spec; lia). congruence.
+Qed.
+Theorem tile_accepted_iff E O outV t mn mx :
+  tile_accepted E O outV t mn mx <->
+  tile_fits E O outV t /\ mn = wid_min (sid_scale outV) (tile_lo E O t) /\ mx = wid_max (sid_scale outV) (tile_hi E O t).
+Proof.
+  split.
+  - intros A. pose proof (tile_accepted_C12 _ _ _ _ _ _ A) as C. cbv zeta in C. unfold tile_fits. repeat split; lia.
+  - intros (F & -> & ->). destruct (key2z (tz t) (tv t) outV E O) as [[mn mx]|] eqn:K.
+    + assert (A : tile_accepted E O outV t mn mx) by (split; [apply ext_check_zoom_spec; unfold tile_fits in F; lia|exact K]).
+      pose proof (tile_accepted_C12 _ _ _ _ _ _ A) as C. cbv zeta in C. destruct C as (_ & _ & _ & <- & <- & _). exact A.
+    + exfalso. assert (R : tile_rejected E O outV t) by (right; exact K). apply tile_rejected_iff in R. contradiction.
+Qed.
+Theorem from_tile_iff E O outV t j : from_tile E O outV t j <-> stems_from E O outV t j.
+Proof.
+  unfold from_tile, stems_from. split.
+  - intros (mn & mx & A & H). apply tile_accepted_iff in A. destruct A as (F & -> & ->). tauto.
+  - intros (F & H). exists (wid_min (sid_scale outV) (tile_lo E O t)), (wid_max (sid_scale outV) (tile_hi E O t)).
+    split; [apply tile_accepted_iff; auto|tauto].
+Qed.
+
+(* the three structural theorems again, without the conversion function *)
+Theorem tiles_to_eids_members_ind l E O outV r : tiles_to_eids l E O outV = Ok r ->
+  (forall t, In t l -> tile_fits E O outV t) /\ forall j, In j r <-> exists t, In t l /\ stems_from E O outV t j.
+Proof.
+  intros H. split.
+  - intros t Ht. destruct (tiles_to_eids_complete _ _ _ _ _ _ H Ht) as (mn & mx & A & _). apply tile_accepted_iff in A. tauto.
+  - intros j. rewrite (tiles_to_eids_members _ _ _ _ _ H). split; intros (t & Ht & X); exists t; (split; [exact Ht|]); now apply from_tile_iff.
+Qed.
+Theorem tiles_to_eids_err_iff_ind l E O outV :
+  tiles_to_eids l E O outV = Err <-> ~ (0 <= outV <= 35) \/ exists t, In t l /\ ~ tile_fits E O outV t.
+Proof.
+  rewrite tiles_to_eids_err_iff. split; (intros [N|(t & Ht & R)]; [now left|right]); exists t; (split; [exact Ht|]); now apply tile_rejected_iff.
+Qed.
+Theorem tiles_to_eids_ok_iff_ind l E O outV :
+  (exists r, tiles_to_eids l E O outV = Ok r) <-> 0 <= outV <= 35 /\ forall t, In t l -> tile_fits E O outV t.
+Proof.
+  split.
+  - intros (r & H). split; [apply tiles_to_eids_Ok_inv in H; tauto|apply (tiles_to_eids_members_ind _ _ _ _ _ H)].
+  - intros (Hz & Hall). destruct (tiles_to_eids l E O outV) as [r|] eqn:H; [eauto|]. exfalso.
+    apply tiles_to_eids_err_iff_ind in H. destruct H as [N|(t & Ht & N)]; [contradiction|]. apply N, Hall, Ht.
 Qed.
 
 (* every result is a valid ID of the grid when the tiles' x, y are indices of their horizontal zoom *)
